@@ -83,6 +83,23 @@ def build(reg):
     reg.contract(MSG + ":check_or_raise_realm_name", params={"value": UNTRUSTED, "message": "str", "allow_eth": "bool"},
                  returns=UNTRUSTED, ensures=[IS_REALM, "result is value"], raises={"InvalidUriError": "not (%s)" % IS_REALM},
                  **common)
+    def str_keys(ex, state, d):
+        def f(a):
+            o = ex.obj(state, a) if isinstance(a, VRef) else None
+            if o is not None and o.kind == "udict":
+                return VBool(z3.Not(z3.And(o.other, o.alien)))      # the declared keys are strings by construction
+            if o is not None and o.kind == "dict" and o.d is not None:
+                return VBool(all(isinstance(k, str) for k in o.d))
+            raise Unsupported("str_keys of %r" % (a,))
+        return ex.dist(state, [d], f)
+    reg.native_spec("str_keys", str_keys)
+    EXTRA_OK = "type(value) == dict and str_keys(value)"
+    reg.contract(MSG + ":check_or_raise_extra", params={"value": UNTRUSTED, "message": "str"}, returns="any",
+                 ensures=[EXTRA_OK, "result is value"], raises={"ProtocolError": "not (%s)" % EXTRA_OK}, **common)
+    KW_OK = "value is None or (type(value) == dict and str_keys(value))"
+    reg.contract(MSG + ":_validate_kwargs", params={"kwargs": UNTRUSTED, "message": "str"}, returns="any",
+                 ensures=[KW_OK.replace("value", "kwargs"), "result is kwargs"],
+                 raises={"ProtocolError": "not (%s)" % KW_OK.replace("value", "kwargs")}, **common)
     parse_units(reg, common)
 
 
@@ -260,6 +277,9 @@ def uri_ok(s, strict, ale, ae):
 def id_ok(v):
     return 0 <= v <= 2 ** 53
 
+def str_keys(d):
+    return all(type(k) is str for k in d)
+
 def build(x):
     if isinstance(x, list):
         return [build(y) for y in x]
@@ -338,6 +358,24 @@ def replay(o):
                                                     ("realm" if "realm_name" in unit else None))
     if fn is None and ".parse" in unit:
         return _replay_parse(o, unit)
+    if fn is None and ("check_or_raise_extra" in unit or "_validate_kwargs" in unit):
+        from pyvc import replaylib as Rp
+        name = "check_or_raise_extra" if "check_or_raise_extra" in unit else "_validate_kwargs"
+        v = inp.get("value", inp.get("kwargs"))
+        code = _PARSE_HARNESS.split("wmsg = build(case")[0] + '''
+v = build(case["value"])
+want = (type(v) is dict and str_keys(v)) or (v is None and case["fn"] == "_validate_kwargs")
+try:
+    r = getattr(M, case["fn"])(v, "m"); got = "accepted" if r is v else "returned-other"
+except ProtocolError:
+    got = "rejected"
+except Exception as e:
+    got = "crashed:" + type(e).__name__
+print(json.dumps({"got": got, "want": "accepted" if want else "rejected", "value": repr(v)}))
+'''
+        out = Rp.run_py(code.replace("CASE", repr({"fn": name, "value": v})))
+        bad = isinstance(out, dict) and "got" in out and out.get("got") != out.get("want")
+        return {"reproduced": bool(bad), "observed": out, "detail": "the real %s called on the counterexample value" % name}
     if fn is None:
         return {"reproduced": False, "detail": "no replay harness for this unit"}
     case = {"fn": fn, "value": _val(inp.get("value"))}
